@@ -336,6 +336,8 @@ func (tree *ParserT) parseStatement(exec bool) error {
 					return err
 				}
 				appendToParam(tree, value...)
+				// like '' and "", %() is a parameter even when it is empty
+				tree.statement.canHaveZeroLenStr = true
 			default:
 				appendToParam(tree, r)
 			}
